@@ -234,7 +234,7 @@ def statics_check(ctx, texts, orders=None):
 
 
 def run(ctx):
-    ctx.lean_stage(["rule_fields", "parser_statics"], ["Verif.Props.C13", "Verif.Props.ScanRules", "Verif.Props.ScanRules2", "Verif.Props.ScanRules2b", "Verif.Props.ListRules"])
+    ctx.lean_stage(["rule_fields", "parser_statics"], ["Verif.Props.C13", "Verif.Props.ScanRules", "Verif.Props.ScanRules1b", "Verif.Props.ScanRules2", "Verif.Props.ScanRules2b", "Verif.Props.ListRules"])
     __import__("blocks").listrules(ctx)      # md007_state_reset_partial (every leftover state, incl. an abandoned file), ctm_clear_eq_fresh_iff, md006_state_reset
     __import__("blocks").scanrules2(ctx)     # mdX_state_reset for MD011 MD013 MD014 MD028 MD032 MD033 MD034, md018_stale_delayed_line
     __import__("blocks").scanrules(ctx)      # mdX_state_reset: file B after file A = B alone, for all A, B (ten scan-only token rules; MD022's unreset field proved harmless)
